@@ -192,6 +192,15 @@ def execute(op, env: Env):
         return pendulum.duration(
             years=o.years, months=o.months, weeks=o.weeks, days=o.remaining_days, hours=o.hours,
             minutes=o.minutes, seconds=o.remaining_seconds, microseconds=o.microseconds)
+    if f == "iv_sym":
+        iv = build(op[1], env)
+        return [iv, -iv]
+    if f == "iv_inm":
+        iv = build(op[1], env)
+        return [iv.years, iv.months, iv.in_months(), iv.in_years()]
+    if f == "utc_pair":
+        a, b = build(op[1], env), build(op[2], env)
+        return [pendulum.interval(a, b), pendulum.interval(a.in_tz("UTC"), b.in_tz("UTC"))]
     if f == "add_back":
         # a + (b - a) through the components the interval reports
         a, iv = build(op[1], env), build(op[2], env)
